@@ -207,6 +207,28 @@ func matchSpec(fn *ssa.Function, in ssa.Instruction, spec string, selSend map[*s
 			}
 		}
 		return false
+	case "call-in-loop-over", "call-outside-loop-over":
+		// a call of the function named before the second colon that lies inside (outside) a loop ranging
+		// over the slice returned by the function named after it: "call-in-loop-over:callee:source"
+		parts := strings.SplitN(arg, ":", 2)
+		if len(parts) != 2 {
+			return false
+		}
+		c, ok := in.(*ssa.Call)
+		if !ok {
+			return false
+		}
+		n := ""
+		if f := c.Common().StaticCallee(); f != nil {
+			n = originOf(f).Name()
+		} else if c.Common().IsInvoke() {
+			n = c.Common().Method.Name()
+		}
+		if n != parts[0] {
+			return false
+		}
+		inside := inSliceLoopOverCall(fn, in.Block(), parts[1])
+		return inside == (kind == "call-in-loop-over")
 	case "map-range-call":
 		// a call of the named function or method inside a loop that ranges over a Go map
 		if c, ok := in.(*ssa.Call); ok {
@@ -491,7 +513,14 @@ func runFlowCheckFn(P *Program, fc FlowCheck, fn *ssa.Function) flowResult {
 				}
 			}
 		}
-		if !anyUntil {
+		if len(fc.Through) > 0 {
+			// in this mode "through" is not a set of points to pass: it names the witness that shows the
+			// obligation is about this function (the good form of what "until" is the bad form of)
+			if !anyThrough {
+				res.err = "contract-target-missing: no instruction matches witness=" + strings.Join(fc.Through, ",")
+				return res
+			}
+		} else if !anyUntil {
 			res.err = "contract-target-missing: no instruction matches until=" + strings.Join(fc.Until, ",")
 			return res
 		}
@@ -519,7 +548,7 @@ func runFlowCheckFn(P *Program, fc FlowCheck, fn *ssa.Function) flowResult {
 				continue
 			}
 			in := p.b.Instrs[p.i]
-			if matchAny(in, fc.Through) {
+			if fc.Mode != "never" && fc.Mode != "never-absent-ok" && matchAny(in, fc.Through) {
 				continue
 			}
 			if matchAny(in, fc.Until) {
@@ -646,4 +675,54 @@ func selectRecvBlocks(fn *ssa.Function, ch string) map[*ssa.BasicBlock]bool {
 		}
 	}
 	return out
+}
+
+// inSliceLoopOverCall: the block lies in a natural loop that ranges over the slice returned by a call of the
+// named function (the loop's header compares its index with the length of that slice).
+func inSliceLoopOverCall(fn *ssa.Function, blk *ssa.BasicBlock, source string) bool {
+	fromSource := func(v ssa.Value) bool {
+		c, ok := v.(*ssa.Call)
+		if !ok {
+			return false
+		}
+		f := c.Call.StaticCallee()
+		return f != nil && originOf(f).Name() == source
+	}
+	for _, h := range fn.Blocks {
+		isHeader := false
+		for _, in := range h.Instrs {
+			bo, ok := in.(*ssa.BinOp)
+			if !ok || bo.Op != token.LSS {
+				continue
+			}
+			if lc, ok := bo.Y.(*ssa.Call); ok {
+				if bi, ok := lc.Call.Value.(*ssa.Builtin); ok && bi.Name() == "len" && len(lc.Call.Args) == 1 && fromSource(lc.Call.Args[0]) {
+					isHeader = true
+				}
+			}
+		}
+		if !isHeader {
+			continue
+		}
+		for _, p := range h.Preds {
+			if !h.Dominates(p) {
+				continue
+			}
+			seen := map[*ssa.BasicBlock]bool{h: true}
+			work := []*ssa.BasicBlock{p}
+			for len(work) > 0 {
+				b := work[len(work)-1]
+				work = work[:len(work)-1]
+				if seen[b] {
+					continue
+				}
+				seen[b] = true
+				work = append(work, b.Preds...)
+			}
+			if seen[blk] && blk != h {
+				return true
+			}
+		}
+	}
+	return false
 }
